@@ -641,7 +641,7 @@ pub fn build() -> Registry {
     single!(b, "serpent", "serpent", &serp, serpent_z, serpent_z::Serpent, "Serpent", true, clone);
     single!(b, "serpent", "serpent", &serp, serpent_nu_z, serpent_nu_z::Serpent, "Serpent", true, clone);
 
-    let bf: Vec<usize> = vec![4, 5, 7, 8, 13, 16, 24, 31, 32, 47, 55, 56];
+    let bf: Vec<usize> = (4..=56).collect();
     single!(b, "blowfish", "blowfish", &bf, blowfish, blowfish::Blowfish, "Blowfish", false, clone);
     single!(b, "blowfish", "blowfish", &bf, blowfish_zb, blowfish_zb::Blowfish, "Blowfish", true, clone);
     single!(b, "blowfish_le", "blowfish", &bf, blowfish, blowfish::BlowfishLE, "BlowfishLE", false, clone);
@@ -670,7 +670,7 @@ pub fn build() -> Registry {
     pair!(b, "gost89_b", "magma", &[32], magma, magma_z, Gost89CryptoProB);
     pair!(b, "gost89_c", "magma", &[32], magma, magma_z, Gost89CryptoProC);
     pair!(b, "gost89_d", "magma", &[32], magma, magma_z, Gost89CryptoProD);
-    let rc2l: Vec<usize> = vec![1, 2, 5, 7, 8, 16, 31, 32, 33, 64, 127, 128];
+    let rc2l: Vec<usize> = (1..=128).collect();
     pair!(b, "rc2", "rc2", &rc2l, rc2, rc2_z, Rc2);
     pair!(b, "rc5_8_12_4", "rc5", &[4], rc5, rc5_z, RC5<u8, U12, U4>);
     pair!(b, "rc5_16_16_8", "rc5", &[8], rc5, rc5_z, RC5<u16, U16, U8>);
